@@ -15,7 +15,9 @@ template <class T> static void run_T(Choice &c, Ctx &cx)
     GMat G = gen_values(c, n, n, pat, cplx, single, family);
     // widen the magnitude range for some cases (MC64 works on logarithms)
     unsigned wide = c.below(6);
-    if (wide >= 4) { int K = single ? 30 : (wide == 5 ? 400 : 120); for (auto &col : G.col) for (auto &e : col) { int s = zigzag(c.u8(), K); e.second.re = std::ldexp(e.second.re, s); e.second.im = std::ldexp(e.second.im, s); } G.vkind += "+wide"; }
+    // (structurally singular patterns get the widest range more often: MC64's 'scaling may overflow' warning must not hide singularity)
+    if (pm == PAT_SINGULAR && wide >= 2 && wide <= 3) wide = 5;
+    if (wide >= 4) { int K = single ? 30 : (wide == 5 ? 400 : 120); for (auto &col : G.col) for (auto &e : col) { unsigned b = c.u8(); int s = (wide == 5 && (b & 0x80)) ? ((b & 1) ? K : -K) : zigzag((uint8_t)b, K); e.second.re = std::ldexp(e.second.re, s); e.second.im = std::ldexp(e.second.im, s); } G.vkind += "+wide"; }
     // explicit zeros are outside MC64's input contract ("the numerical values of the nonzero entries"): remove them
     for (auto &col : G.col) { std::vector<std::pair<int, Val>> keep; for (auto &e : col) if (e.second.re != 0 || e.second.im != 0) keep.push_back(e); col.swap(keep); }
     bool exsing = maybe_exactly_singular(G);
